@@ -28,28 +28,32 @@ func NewTrackStakeChangesDecorator(rk keeper.Keeper, sk types.StakingKeeper) Tra
 
 // implement the AnteDecorator interface
 func (t TrackStakeChangesDecorator) AnteHandle(ctx sdk.Context, tx sdk.Tx, simulate bool, next sdk.AnteHandler) (sdk.Context, error) {
-	// loop through all the messages and check if the message type will change stake by more than 5%
-	var msgAmount math.Int
+	// add up the stake all messages of the transaction add and remove: the 5% bound applies to the
+	// transaction as a whole, otherwise several messages that each stay below it could exceed it together
+	totalIncrease := math.ZeroInt()
+	totalDecrease := math.ZeroInt()
+	hasStakingMsg := false
 	for _, msg := range tx.GetMsgs() {
 		switch msg := msg.(type) {
 		case *stakingtypes.MsgCreateValidator:
-			msgAmount = msg.Value.Amount
+			totalIncrease = totalIncrease.Add(msg.Value.Amount)
 		case *stakingtypes.MsgDelegate:
-			msgAmount = msg.Amount.Amount
+			totalIncrease = totalIncrease.Add(msg.Amount.Amount)
 		case *stakingtypes.MsgBeginRedelegate:
 			// redelegate shouldn't increase the total stake, however if its coming from
 			// a validator that is not in the active set, it might be considered as an increase
 			// in the active stake. Hence, we need to handle it appropriately.
-			msgAmount = msg.Amount.Amount
+			totalIncrease = totalIncrease.Add(msg.Amount.Amount)
 		case *stakingtypes.MsgCancelUnbondingDelegation:
-			msgAmount = msg.Amount.Amount
+			totalIncrease = totalIncrease.Add(msg.Amount.Amount)
 		case *stakingtypes.MsgUndelegate:
-			// negate the amount since undelegating is removing stake from the chain
-			// and to help with the comparison later on
-			msgAmount = msg.Amount.Amount.Neg()
+			totalDecrease = totalDecrease.Add(msg.Amount.Amount)
 		default:
 			continue
 		}
+		hasStakingMsg = true
+	}
+	if hasStakingMsg {
 		// get the total bonded tokens that was set in the last update
 		// to compare against the current amount of bonded tokens
 		lastupdated, err := t.reporterKeeper.Tracker.Get(ctx)
@@ -64,21 +68,20 @@ func (t TrackStakeChangesDecorator) AnteHandle(ctx sdk.Context, tx sdk.Tx, simul
 		if err != nil {
 			return ctx, err
 		}
-		changeAmt := currentAmount.Add(msgAmount)
-		if msgAmount.IsNegative() {
+		if totalDecrease.IsPositive() {
 			// subtract 5 percent from last updated amount
 			allowedLowerBound := lastupdated.Amount.Sub(lastupdated.Amount.QuoRaw(20))
-			if changeAmt.LT(allowedLowerBound) {
+			if currentAmount.Sub(totalDecrease).LT(allowedLowerBound) {
 				return ctx, errors.New("total stake decrease exceeds the allowed 5% threshold within a twelve-hour period")
 			}
-		} else {
+		}
+		if totalIncrease.IsPositive() {
 			// add 5 percent to last updated amount
 			allowedUpperBound := lastupdated.Amount.Add(lastupdated.Amount.QuoRaw(20))
-			if changeAmt.GT(allowedUpperBound) {
+			if currentAmount.Add(totalIncrease).GT(allowedUpperBound) {
 				return ctx, errors.New("total stake increase exceeds the allowed 5% threshold within a twelve-hour period")
 			}
 		}
-
 	}
 
 	return next(ctx, tx, simulate)
